@@ -240,7 +240,7 @@ impl TdScen {
                     // (only reachable by merging a foreign heavy-tailed digest with local data)
                     let (fm, fw) = cents[0];
                     let (lm, lw) = cents[cents.len() - 1];
-                    let sub = if (lw == 1 && mx > lm && v >= lm) || (fw == 1 && mn < fm && v <= f64::from_bits(fm.to_bits().wrapping_add(1))) { "|singleton_extreme_centroid_strictly_inside_min_max" } else { "" };
+                    let sub = if (lw == 1 && mx > lm && v >= lm - lm.abs() * 4e-16 - f64::MIN_POSITIVE) || (fw == 1 && mn < fm && v <= cents.get(1).map(|c| c.0).unwrap_or(fm)) { "|singleton_extreme_centroid_strictly_inside_min_max" } else { "" };
                     let viol = Violation::new(format!("C10.rank_not_monotone{sub}"), format!("{name}: rank decreases: rank(prev) = {prev} > rank({v:e}) = {r} (first centroid ({fm:e}, w{fw}), last ({lm:e}, w{lw}), min {mn:e}, max {mx:e}, weight {w})"));
                     if sub.is_empty() {
                         return Err(viol);
